@@ -90,20 +90,30 @@ func problems(m *ref.SpecModel) (present map[string]bool, badPatterns map[string
 			note(d.RHS)
 		case "directive":
 			for _, h := range d.Handles {
-				key := ""
+				var keys []string
 				if h.Term != nil {
 					note(h.Term)
-					key = h.Term.K + ":" + h.Term.Name
+					keys = []string{h.Term.K + ":" + h.Term.Name}
 				} else {
 					heads[h.Rule.Name] = true
 					usedNT[h.Rule.Name] = true
 					note(h.Rule.RHS)
-					key = "rule:" + h.Rule.Name
+					// a rule handle stands for each production it expands to: one per top-level alternative
+					alts := []*ref.RHS{h.Rule.RHS}
+					if h.Rule.RHS != nil && h.Rule.RHS.K == "alt" {
+						alts = h.Rule.RHS.Subs
+					}
+					for _, a := range alts {
+						b, _ := json.Marshal(a)
+						keys = append(keys, "rule:"+h.Rule.Name+":"+string(b))
+					}
 				}
-				if handleLevels[key] == nil {
-					handleLevels[key] = map[int]bool{}
+				for _, key := range keys {
+					if handleLevels[key] == nil {
+						handleLevels[key] = map[int]bool{}
+					}
+					handleLevels[key][level] = true
 				}
-				handleLevels[key][level] = true
 			}
 			level++
 		}
@@ -406,8 +416,14 @@ func seed(t *rapid.T, m *ref.SpecModel, kind string, i int) {
 		}
 	case "multiple":
 		name := fmt.Sprintf("MULTI%d", i)
-		insertAt(t, m, &ref.Decl{Kind: "token", Name: name, TokKind: "string", Text: fmt.Sprintf("m%da", i), Semi: true}, "pos1")
-		insertAt(t, m, &ref.Decl{Kind: "token", Name: name, TokKind: rapid.SampledFrom([]string{"string", "regex"}).Draw(t, "k2"), Text: fmt.Sprintf("m%db", i), Semi: true}, "pos2")
+		k1 := rapid.SampledFrom([]string{"string", "string", "regex"}).Draw(t, "k1")
+		k2 := rapid.SampledFrom([]string{"string", "regex"}).Draw(t, "k2")
+		text2 := fmt.Sprintf("m%db", i)
+		if rapid.IntRange(0, 2).Draw(t, "identicalRedeclaration") == 0 {
+			k2, text2 = k1, fmt.Sprintf("m%da", i) // the very same declaration twice
+		}
+		insertAt(t, m, &ref.Decl{Kind: "token", Name: name, TokKind: k1, Text: fmt.Sprintf("m%da", i), Semi: true}, "pos1")
+		insertAt(t, m, &ref.Decl{Kind: "token", Name: name, TokKind: k2, Text: text2, Semi: true}, "pos2")
 		if rapid.Bool().Draw(t, "used") {
 			appendAlt(firstRule(m), &ref.RHS{K: "tok", Name: name})
 		}
@@ -464,6 +480,22 @@ func seed(t *rapid.T, m *ref.SpecModel, kind string, i int) {
 			}
 		}
 	case "handle":
+		if r := firstRule(m); r != nil && rapid.IntRange(0, 2).Draw(t, "productionHandle") == 0 {
+			// the same production in two levels: once as a later alternative of a rule handle that is not the first
+			// handle of its directive, once alone
+			bin := func(op string) *ref.RHS {
+				return &ref.RHS{K: "cat", Subs: []*ref.RHS{{K: "nt", Name: r.Name}, {K: "str", Name: fmt.Sprintf("%s%d", op, i)}, {K: "nt", Name: r.Name}}}
+			}
+			both := &ref.Decl{Kind: "rule", Name: r.Name, RHS: &ref.RHS{K: "alt", Subs: []*ref.RHS{bin("hp"), bin("hm")}}}
+			one := &ref.Decl{Kind: "rule", Name: r.Name, RHS: bin(rapid.SampledFrom([]string{"hm", "hp"}).Draw(t, "repeated"))}
+			first := []*ref.Handle{{Rule: both}}
+			if rapid.Bool().Draw(t, "notLeading") {
+				first = []*ref.Handle{{Term: &ref.RHS{K: "str", Name: fmt.Sprintf("hx%d", i)}}, {Rule: both}}
+			}
+			insertAt(t, m, &ref.Decl{Kind: "directive", Assoc: "@left", Semi: true, Handles: first}, "pos1")
+			insertAt(t, m, &ref.Decl{Kind: "directive", Assoc: "@right", Semi: true, Handles: []*ref.Handle{{Rule: one}}}, "pos2")
+			return
+		}
 		lit := fmt.Sprintf("h%d", i)
 		insertAt(t, m, &ref.Decl{Kind: "directive", Assoc: "@left", Semi: true, Handles: []*ref.Handle{{Term: &ref.RHS{K: "str", Name: lit}}}}, "pos1")
 		insertAt(t, m, &ref.Decl{Kind: "directive", Assoc: rapid.SampledFrom([]string{"@left", "@right", "@none"}).Draw(t, "assoc"), Semi: true, Handles: []*ref.Handle{{Term: &ref.RHS{K: "str", Name: "+"}}, {Term: &ref.RHS{K: "str", Name: lit}}}}, "pos2")
